@@ -465,12 +465,13 @@ func (ds *DryScenario) Enabled(h []Ev) []Ev {
 
 func (ds *DryScenario) Explore(r *ev.Run) seqx.Stats {
 	return seqx.Explore(r, seqx.Scenario[Ev]{
-		Name:      ds.Name,
-		Enabled:   ds.Enabled,
-		Exec:      func(h []Ev) (string, string, *seqx.Failure) { return ds.Exec(r, h) },
-		MaxDepth:  ds.Depth,
-		Workers:   16,
-		MaxStates: ds.MaxStates,
+		Name:         ds.Name,
+		Enabled:      ds.Enabled,
+		Exec:         func(h []Ev) (string, string, *seqx.Failure) { return ds.Exec(r, h) },
+		MaxDepth:     ds.Depth,
+		Workers:      16,
+		MaxStates:    ds.MaxStates,
+		NoMergeDepth: ds.NoMergeDepth,
 	})
 }
 
@@ -629,22 +630,24 @@ func DryScenarios(r *ev.Run) []*DryScenario {
 		s.DryRun = true
 		return &DryScenario{Scenario: s, ClientRates: rates}
 	}
+	// NoMergeDepth: every history of length <= 4 is executed whatever the canonical key says; <= 5 in the scenarios with
+	// the smaller alphabets (8-10 events), where 10^5 short executions are affordable
 	out := []*DryScenario{
 		mk(&Scenario{Name: "dry-det-w1", Workers: 1, IDs: w1[:2], Kinds: rc, Samplers: []func() any{det(2), det(1)}, KeptPerWorker: 4,
-			Traces: traces, Advances: advances, EjectBytes: []int{-1, 0}, Depth: q(6, 8), MaxSpansPerTrace: 3, MaxAdv: 2, MaxReloads: 1}),
+			Traces: traces, Advances: advances, EjectBytes: []int{-1, 0}, Depth: q(6, 8), MaxSpansPerTrace: 3, MaxAdv: 2, MaxReloads: 1, NoMergeDepth: 3}),
 		mk(&Scenario{Name: "dry-det-w2", Workers: 2, IDs: w2, Kinds: rc, Samplers: []func() any{det(2), det(1)}, KeptPerWorker: 4,
-			Traces: traces, Advances: advances[:1], EjectBytes: []int{-1}, Depth: q(5, 6), MaxSpansPerTrace: 2, MaxAdv: 1, MaxReloads: 1}),
+			Traces: traces, Advances: advances[:1], EjectBytes: []int{-1}, Depth: q(5, 6), MaxSpansPerTrace: 2, MaxAdv: 1, MaxReloads: 1, NoMergeDepth: 3}),
 		mk(&Scenario{Name: "dry-rules-root-w1", Workers: 1, IDs: w1[:2], Kinds: rc, Samplers: []func() any{rulesRoot}, KeptPerWorker: 4,
-			Traces: traces, Advances: advances, EjectBytes: []int{-1}, Depth: q(6, 7), MaxSpansPerTrace: 3, MaxAdv: 2, MaxReloads: 0}),
+			Traces: traces, Advances: advances, EjectBytes: []int{-1}, Depth: q(6, 7), MaxSpansPerTrace: 3, MaxAdv: 2, MaxReloads: 0, NoMergeDepth: 3}),
 		mk(&Scenario{Name: "dry-rules-marker-w1", Workers: 1, IDs: w1[:2], Kinds: []fx.Kind{fx.Child}, Marked: true, Samplers: []func() any{rulesMarker, det(1)}, KeptPerWorker: 4,
-			Traces: traces, Advances: advances[:1], EjectBytes: []int{-1, 0}, Depth: q(6, 7), MaxSpansPerTrace: 3, MaxAdv: 2, MaxReloads: 1}),
+			Traces: traces, Advances: advances[:1], EjectBytes: []int{-1, 0}, Depth: q(6, 7), MaxSpansPerTrace: 3, MaxAdv: 2, MaxReloads: 1, NoMergeDepth: 3}),
 		mk(&Scenario{Name: "dry-spanlimit-w1", Workers: 1, IDs: w1[:2], Kinds: rc, Samplers: []func() any{det(2)}, KeptPerWorker: 4,
-			Traces: limit, Advances: advances[:1], EjectBytes: []int{-1}, Depth: q(6, 7), MaxSpansPerTrace: 4, MaxAdv: 1, MaxReloads: 0}),
+			Traces: limit, Advances: advances[:1], EjectBytes: []int{-1}, Depth: q(6, 7), MaxSpansPerTrace: 4, MaxAdv: 1, MaxReloads: 0, NoMergeDepth: 4}),
 		mk(&Scenario{Name: "dry-kept-capacity-2", Workers: 1, IDs: w1, Kinds: []fx.Kind{fx.Child}, Samplers: []func() any{det(1)}, KeptPerWorker: 2,
-			Traces: traces, Advances: advances[:1], EjectBytes: []int{-1, 0}, Depth: q(6, 7), MaxSpansPerTrace: 2, MaxAdv: 1, MaxReloads: 0}),
+			Traces: traces, Advances: advances[:1], EjectBytes: []int{-1, 0}, Depth: q(6, 7), MaxSpansPerTrace: 2, MaxAdv: 1, MaxReloads: 0, NoMergeDepth: 4}),
 	}
 	st := mk(&Scenario{Name: "dry-stress-w1", Workers: 1, IDs: w1, Kinds: []fx.Kind{fx.Child}, Samplers: []func() any{det(2)}, KeptPerWorker: 4,
-		Traces: traces, Advances: advances[:1], EjectBytes: []int{-1}, Depth: q(6, 7), MaxSpansPerTrace: 3, MaxAdv: 1, MaxReloads: 0})
+		Traces: traces, Advances: advances[:1], EjectBytes: []int{-1}, Depth: q(6, 7), MaxSpansPerTrace: 3, MaxAdv: 1, MaxReloads: 0, NoMergeDepth: 4})
 	// ID0: sampler keeps / stress drops; ID1: sampler drops / stress keeps; ID2: both keep
 	st.Stress, st.StressKeep, st.StressRate = true, []bool{false, true, true}, 5
 	out = append(out, st)
